@@ -9,7 +9,7 @@ for d in seeded/*/; do
   if [ -n "${REGRESS_VARIANTS:-}" ] && ! echo " $REGRESS_VARIANTS " | grep -q " $var "; then continue; fi
   git -C /repo apply /verif/$d/patch.diff || { echo "$n: PATCH DOES NOT APPLY"; continue; }
   out=$(./check $id quick 2>&1); rc=$?
-  git -C /repo checkout -- .
+  git -C /repo checkout -- . ; git -C /repo clean -fdq
   sig=$(echo "$out" | grep -m1 "signature:" | sed 's/ *signature: //')
   if [ $rc -ne 1 ]; then miss=$((miss+1)); echo "$n: rc=$rc  MISSED/ERROR $(echo "$out" | grep -m1 MACHINERY)"; else echo "$n: detected  $sig"; fi
 done
